@@ -21,4 +21,12 @@ var configs = map[string]config{
 		Assumptions: assume(modelAssumption, "histories are bounded to 8 setter calls")},
 	"C19": {Tests: "^TestC19$", QuickChecks: 40000, ThoroughChecks: 400000, QuickShards: 8, ThoroughShards: 16,
 		Assumptions: assume("expected values are recomputed from Hostname, Port, Protocol and Href only; the six special schemes and their default ports are those of the standard (default parser)", "histories are bounded to 10 steps")},
+	"C06": {Tests: "^TestC06$", QuickChecks: 40000, ThoroughChecks: 400000, QuickShards: 8, ThoroughShards: 16,
+		Assumptions: assume("model-free: the laws relate several runs of the implementation to each other; 'without a scheme' is decided on the reference text after the parser's own trimming and tab/newline removal", "the empty base string means 'no base' as in the package API")},
+	"C07": {Tests: "^TestC07$", QuickChecks: 60000, ThoroughChecks: 600000, QuickShards: 8, ThoroughShards: 16,
+		Assumptions: assume(modelAssumption, "host strings are drawn over an alphabet without authority delimiters, so the text between '//' and '/' is the host; value-first expectations are computed from the drawn 32-bit value, independently of any number parser")},
+	"C08": {Tests: "^TestC08", QuickChecks: 50000, ThoroughChecks: 500000, QuickShards: 8, ThoroughShards: 16,
+		Assumptions: assume(modelAssumption, "the canonical serializer and the expansion used as value oracle are written independently of the model in harness/props/c08.go; the 256 zero/non-zero shapes are enumerated completely, other address values are sampled")},
+	"C09": {Tests: "^TestC09$", QuickChecks: 30000, ThoroughChecks: 300000, QuickShards: 8, ThoroughShards: 16,
+		Assumptions: assume("the UTS #46 mapping itself is taken as given (property wording); spellings vary only characters whose literal and escaped forms are both inside the host (no '%', tab/LF/CR or authority delimiter in the decoded host)", "the C07 sub-case uses the reference model's IPv4 parser")},
 }
